@@ -278,6 +278,8 @@ package bcl
 //@   ensures at_least_one: p.scope.localCount >= 1 && p.scope.localCount >= old(p.scope.localCount) && p.scope.localCount <= old(p.scope.localCount) + 1
 //@   ensures older_kept: forall j int :: 0 <= j && j < old(p.scope.localCount) ==> p.scope.locals[j] == old(p.scope.locals[j])
 //@   ensures depth_kept: p.scope.depth == old(p.scope.depth)
+//@   ensures [C02] redeclaration_is_an_error_only_within_the_same_scope: p.hadError && !old(p.hadError) ==> old(p.scope.localCount) == 1024 || (exists j int :: 0 <= j && j < old(p.scope.localCount) && old(p.scope.locals[j].name) == p.prev.val && (old(p.scope.locals[j].depth) == 0 - 1 || old(p.scope.locals[j].depth) >= p.scope.depth))
+//@   loop 1 invariant [C02] p.hadError && !old(p.hadError) ==> (exists j int :: i < j && j < p.scope.localCount && p.scope.locals[j].name == p.prev.val && (p.scope.locals[j].depth == 0 - 1 || p.scope.locals[j].depth >= p.scope.depth))
 //@   loop 1 invariant invs(p)
 //@   loop 1 invariant 0 - 1 <= i && i < p.scope.localCount && p.scope.localCount == old(p.scope.localCount) && p.scope.depth == old(p.scope.depth) && g.uninit == 0
 //@   loop 1 invariant forall j int :: 0 <= j && j < p.scope.localCount ==> p.scope.locals[j] == old(p.scope.locals[j])
@@ -311,6 +313,11 @@ package bcl
 //@   loop 1 invariant forall j int :: p.scope.localCount <= j && j < old(p.scope.localCount) ==> p.scope.locals[j].depth > p.scope.depth
 //
 //@ func (*parser).resolveIdent
+//@   snapshot slot: at after resolveLocal#1: result
+//@   assert [C02] assignment_updates_exactly_the_resolved_variable_else_a_field: at emitOp#1: ($slot >= 0 ==> $op == opSETLOCAL) && ($slot < 0 ==> $op == opSETFIELD)
+//@   assert [C02] the_slot_written_is_the_resolved_one: at emitUvarint#1: $slot >= 0 ==> $x == $slot
+//@   assert [C02] a_read_takes_the_resolved_variable_else_a_field: at emitOp#2: ($slot >= 0 ==> $op == opGETLOCAL) && ($slot < 0 ==> $op == opGETFIELD)
+//@   assert [C02] the_slot_read_is_the_resolved_one: at emitUvarint#2: $slot >= 0 ==> $x == $slot
 //@   requires [C17] called_on_the_identifier_token: p.hadError || p.prev.typ != tSEMICOLON
 //@   ensures [C17] no_terminator_inside_an_expression: p.hadError || p.prev.typ != tSEMICOLON
 //@   assert [C17,C01] assignment_is_right_associative: at expr.parsePrecedence#1: $prec == precAssign
